@@ -3,7 +3,7 @@ import re
 
 from mirlib import AnchorMissing, op_place, path_matches, is_bare, place_projs
 from helpers import (branches_on_call, enum_switches, edge_region, eq_branches, must_pass, origin_calls, ungated_reach, chain,
-                     aggregates, field_accesses, loop_of)
+                     aggregates, field_accesses, loop_of, vexpr, bool_branches)
 
 EXPLANATION = (
     'Static decision of the structural clauses of C05 on the MIR of slicec: (1) in validate_ast the cycle detector runs first '
@@ -226,9 +226,9 @@ def r_container_coverage(r, prog):
 def r_detect_roots(r, prog):
     f = prog.fn(CD + 'detect_cycles')
     node = 'slicec::ast::node::Node'
-    sws = enum_switches(f, node)
+    sws = [x for x in enum_switches(f, node) if len(x['arms']) >= 2]      # the candidate dispatch (the alias pre-pass tests a single variant)
     if len(sws) != 1:
-        raise AnchorMissing('one match on Node in detect_cycles')
+        raise AnchorMissing('one multi-arm match on Node in detect_cycles')
     sw = sws[0]
     cands = {i['self_adt'] for i in prog.impls_of(CD + 'CycleCandidate')}
     variants = prog.adts[node]['variants']
@@ -436,6 +436,82 @@ def r_inheritance(r, prog):
     r.floor(6)
 
 
+
+def r_alias_through_anonymous(r, prog):
+    """A type alias that reaches itself through anonymous types (`typealias A = Sequence<A>`) makes the patched type graph cyclic: every
+    recursive walk over type expressions is finite only because such aliases are rejected first."""
+    dc = prog.fn(CD + 'detect_cycles')
+    chk = [c for c in dc.calls() if c.name() == 'check_type_alias_for_cycles' and not dc.blocks[c.bb].get('cleanup')]
+    if not chk:
+        r.finding('no-alias-containment-check', dc.span, 'detect_cycles does not check type aliases for anonymous types that contain themselves: `typealias A = Sequence<A>` makes every later walk over the type recurse forever')
+        return
+    lp = loop_of(dc, chk[0].bb)
+    arg = vexpr(dc, chk[0].args[1], depth=8)
+    if lp is not None and re.search(r'as TypeAlias\.0\)$', arg) and any(c.name() == 'next' and c.bb in lp[1] and 'as_slice(arg1)' in vexpr(dc, c.args[0]) for c in dc.calls()):
+        r.ok('every TypeAlias node of the AST is checked for an aliased type that contains itself')
+    else:
+        r.finding('alias-check-not-over-all-nodes', chk[0].span, 'check_type_alias_for_cycles is not applied to every TypeAlias node of ast.as_slice() (argument: %s)' % arg[:80])
+    # the gate: the candidate checks are reachable only on the not-found edge
+    later = [c for c in dc.calls() if c.name() in ('check_for_cycles', 'check_interface_for_inheritance_cycles') and not dc.blocks[c.bb].get('cleanup')]
+    gate = None
+    for b, pl, ts, fs in bool_branches(dc):
+        if pl is None or ts == fs:
+            continue
+        cond = vexpr(dc, {'cp': pl}, depth=10)
+        if 'check_type_alias_for_cycles(' in cond and later and all(dc.edge_dominates(b, fs, c.bb) for c in later) and not any(c.bb in dc.reachable(ts, blocked=[b]) for c in later):
+            gate = (b, fs)
+    if gate and len(later) >= 2:
+        r.ok('the struct / enum / interface checks run only when no such alias was found')
+    else:
+        r.finding('alias-check-does-not-gate', dc.span, 'detect_cycles walks the types of fields without first having established that no alias contains itself')
+        return
+    # every recursive walker of type expressions runs only behind that gate (and behind the post-cycle-detection gate of validate_ast)
+    W = [('sequence::Sequence', 'element_type'), ('dictionary::Dictionary', 'key_type'), ('dictionary::Dictionary', 'value_type'), ('result::ResultType', 'success_type'), ('result::ResultType', 'failure_type')]
+    readers = set()
+    for adt, fld in W:
+        for a in field_accesses(prog, adt, fld):
+            readers.add(a['fn'].path)
+    nodes = [p_ for p_ in prog.fns if prog.fns[p_].crate.tag == 'slicec']
+    walkers = set()
+    for comp in prog.sccs(nodes):
+        if set(comp) & readers:
+            walkers |= set(comp)
+    own = {p_ for p_ in walkers if 'anonymous_type_contains_itself' in p_}
+    walkers -= own
+    if len(walkers) < 6:
+        raise AnchorMissing('recursive walkers over anonymous types (found %d)' % len(walkers))
+    va = prog.fn(V + 'validate_ast')
+    dcc = va.calls_to(CD + 'detect_cycles')
+    vg = [b for b in branches_on_call(va, HAS_ERRORS) if dcc and va.dominates(dcc[0].bb, b['bb'])]
+    if not vg:
+        raise AnchorMissing('has_errors() test after detect_cycles')
+    first = min(vg, key=lambda b: len(va.dominators().get(b['bb'], ())))
+    g = {va.path: [(first['bb'], first['false'])], dc.path: [gate]}
+    seen, parent = ungated_reach(prog, ['slicec::compile_files'], g)
+    bad = sorted(w for w in walkers if w in seen)
+    if bad:
+        for w in bad:
+            r.finding('type-walk-before-alias-check:%s' % w, prog.fns[w].span, '%s recurses through anonymous types and is reachable during compilation without passing the self-containing-alias check' % w, chain(parent, w))
+    else:
+        r.ok('all %d recursive walkers over type expressions run only after self-containing aliases were rejected' % len(walkers))
+    # the check itself terminates: recursion only while the type is not yet on the path
+    w = prog.fn(CD + "CycleDetector::<'a>::anonymous_type_contains_itself")
+    cl = [f for f in prog.fns.values() if f.path.startswith(w.path + '::{closure')]
+    rec = [c for f in [w] + cl for c in f.calls() if c.resolved == w.path]
+    cont = [b for b in branches_on_call(w, lambda x: x.name() == 'contains')]
+    anyc = [c for c in w.calls() if c.name() == 'any' and not w.blocks[c.bb].get('cleanup')]
+    push = [c for c in w.calls() if c.name() == 'push' and not w.blocks[c.bb].get('cleanup')]
+    if rec and cont and anyc and push and all(w.edge_dominates(b['bb'], b['false'], anyc[0].bb) for b in cont) and w.dominates(push[0].bb, anyc[0].bb):
+        r.ok('the containment walk descends only from a type that is not yet on its path, which it records first')
+    else:
+        r.finding('alias-walk-unguarded', w.span, 'anonymous_type_contains_itself recurses without the path-membership guard')
+    ct = prog.fn(CD + "CycleDetector::<'a>::check_type_alias_for_cycles")
+    if any(a['fn'] is ct for a in aggregates(prog, 'slicec::diagnostics::errors::Error')) and ct.calls_to('Diagnostic::push_into'):
+        r.ok('a self-containing alias produces an error diagnostic')
+    else:
+        r.finding('alias-containment-not-reported', ct.span, 'check_type_alias_for_cycles does not report an error')
+    r.floor(5)
+
 def run(ctx):
     prog = ctx.prog
     ctx.run_rule('C05.1a', 'T2', 'cycle detection runs first; everything else in validate_ast is behind the no-errors edge', r_cycles_first, prog)
@@ -446,3 +522,4 @@ def run(ctx):
     ctx.run_rule('C05.3', 'T8', 'recursion guard: self comparison, dependency-stack scan, balanced push/pop', r_recursion_guard, prog)
     ctx.run_rule('C05.4', 'T9', 'alias chain loop: membership exit, chain grows, E019 on that edge', r_alias_loop, prog)
     ctx.run_rule('C05.5', 'T8', 'inheritance loops rejected before any consumer of the base closure; guarded search', r_inheritance, prog)
+    ctx.run_rule('C05.6', 'T2', 'aliases that contain themselves through anonymous types are rejected before any recursive walk over type expressions', r_alias_through_anonymous, prog)
